@@ -75,7 +75,7 @@ def l1_norm(s1, s2):
 
 
 @with_signature(SPEC)
-def c04_counts_and_wrf(**kw):
+def c04_counts_and_wrf(kw):
     t1, t2, nodes1, nodes2, rooted, tns = build_pair(kw)
     s1, s2 = split_lengths(t1, rooted), split_lengths(t2, rooted)
     only1 = [k for k in s1 if k not in s2]
@@ -112,7 +112,7 @@ def c04_counts_and_wrf(**kw):
 
 
 @with_signature(SPEC)
-def c04_euclid(**kw):
+def c04_euclid(kw):
     """Euclidean distance with small concrete lengths per path (sqrt is a C function)."""
     t1, t2, nodes1, nodes2, rooted, tns = build_pair(kw, lens=False, relabel="rotation")
     s1, s2 = split_lengths(t1, rooted), split_lengths(t2, rooted)
@@ -136,7 +136,7 @@ def _defined(f, a, b):
 
 
 @with_signature(SPEC)
-def c04_missing_lengths(**kw):
+def c04_missing_lengths(kw):
     """symmetry of definedness with a missing edge length in one of the trees"""
     t1, t2, nodes1, nodes2, rooted, tns = build_pair(kw, relabel="rotation")
     which = choose(kw["nonemode"], 2)
@@ -156,7 +156,7 @@ def c04_missing_lengths(**kw):
 
 
 @with_signature(SPEC)
-def c04_stale(**kw):
+def c04_stale(kw):
     """a distance call, a structural edit, then a second call with default arguments"""
     t1, t2, nodes1, nodes2, rooted, tns = build_pair(kw, relabel="rotation")
     fn = choose(kw["fn"], 2)
@@ -203,7 +203,7 @@ def c04_stale(**kw):
 
 
 @with_signature(SPEC)
-def c04_namespace(**kw):
+def c04_namespace(kw):
     """trees over different namespaces are refused"""
     p1, p2 = list(kw["shape"]), list(kw["shape2"])
     t1, _ = tg.build(p1, None, rooted=True)
